@@ -768,10 +768,11 @@ class QueryObjectDescriptor(SymbolicExpression[T], ABC):
     ) -> Iterable[OperationResult]:
         sources = sources or {}
         self._eval_parent_ = parent
-        # a rule query (its condition tree carries conclusions) answers with what its rows conclude
-        is_rule_query = self._child_ is not None and any(
-            node._conclusion_ for node in self._child_._all_nodes_
-        )
+        # a rule tree (the root of its conditions is a conclusion selector, which selects the conclusions row by row) answers
+        # with what its rows conclude; a condition node shared with some rule does not make a plain query a rule
+        from .conclusion_selector import ConclusionSelector
+
+        is_rule_query = isinstance(self._child_, ConclusionSelector)
         for values in self.get_constrained_values(sources):
             if is_rule_query and not self._child_._conclusion_:
                 # nothing (new) was selected for this row: it must not hand out what other rows inferred
